@@ -206,6 +206,28 @@ fn record(args: &Args) {
         }
     }
 
+    // ---- many lines before the error: line counts that overflow any narrow (8-bit, 16-bit)
+    //      per-lane tally and straddle the counting strides (very short lines, dense LF runs)
+    for &nl in &[200usize, 255, 256, 257, 300, 511, 512, 513, 1000, 2100, 66000] {
+        for variant in 0..3 {
+            if nl > 3000 && variant > 0 {
+                continue;
+            }
+            let mut b: Vec<u8> = Vec::new();
+            for i in 0..nl {
+                match variant {
+                    0 => {}                                             // bare LF runs
+                    1 => b.push(b'0' + (i % 10) as u8),                 // 2-byte lines
+                    _ => b.extend(std::iter::repeat(b'x').take(r.below(7) as usize)), // < 8 bytes per line
+                }
+                b.push(b'\n');
+            }
+            b.extend_from_slice(b"ab");
+            b.push(*r.pick(&[0xFFu8, 0x80, 0xC0, 0xF5]));
+            emit_v(&mut tr, &b);
+        }
+    }
+
     // ---- decode_code_point on arbitrary short strings
     const EDGE: [u8; 24] = [
         0x00, 0x41, 0x7F, 0x80, 0x8F, 0x90, 0x9F, 0xA0, 0xBF, 0xC0, 0xC1, 0xC2, 0xDF, 0xE0, 0xE1, 0xED, 0xEE, 0xEF,
